@@ -28,7 +28,8 @@ extern "C" int __lsan_do_recoverable_leak_check(void);
 namespace cb = covfie::backend;
 namespace cv = covfie::vector;
 
-using arr2 = cb::array<cv::float2>;
+// three components per cell over two coordinates (N != M: a copy loop bounded by the wrong dimension count shows)
+using arr2 = cb::array<cv::float3>;
 using F0 = covfie::field<cb::strided<cv::size2, arr2>>;
 using F1 = covfie::field<cb::morton<cv::size2, arr2>>;
 using F2 = covfie::field<cb::hilbert<cv::size2, arr2>>;
@@ -96,8 +97,9 @@ static auto & cell(const V & v, unsigned x, unsigned y, unsigned ey)
 template <int T>
 constexpr unsigned comps()
 {
-    return T == 4 ? 1 : 2;
+    return T == 4 ? 1 : 3;
 }
+constexpr unsigned MAXC = 3;
 
 struct Model {
     int state = 0;  // 0 empty, 1 live, 2 dead (moved-from: may only be destroyed or assigned to)
@@ -106,8 +108,8 @@ struct Model {
     std::vector<double> v;
 };
 
-enum Kind { CONSTRUCT, WRITE, COPY_CONSTRUCT, MOVE_CONSTRUCT, COPY_ASSIGN, MOVE_ASSIGN, CONVERT_COPY, CONVERT_MOVE, DUMP_LOAD, DESTROY, NKINDS };
-static const char * kname[NKINDS] = {"construct", "write", "copy-construct", "move-construct", "copy-assign", "move-assign", "convert-copy", "convert-move", "dump+load", "destroy"};
+enum Kind { CONSTRUCT, WRITE, COPY_CONSTRUCT, MOVE_CONSTRUCT, COPY_ASSIGN, MOVE_ASSIGN, CONVERT_COPY, CONVERT_MOVE, DUMP_LOAD, ADOPT_TWICE, DESTROY, NKINDS };
+static const char * kname[NKINDS] = {"construct", "write", "copy-construct", "move-construct", "copy-assign", "move-assign", "convert-copy", "convert-move", "dump+load", "two-fields-from-one-named-storage", "destroy"};
 struct Op {
     Kind k;
     int dst, src, type, ext, cellsel;
@@ -182,6 +184,7 @@ struct Pool {
         case DESTROY: return d.state != 0;
         case COPY_CONSTRUCT:
         case MOVE_CONSTRUCT:
+        case ADOPT_TWICE:
         case DUMP_LOAD: return o.dst != o.src && d.state == 0 && m[o.src].state == 1;
         case COPY_ASSIGN:
         case MOVE_ASSIGN: return m[o.src].state == 1 && d.state != 0 && d.type == m[o.src].type;
@@ -200,7 +203,7 @@ struct Pool {
                 fld<T.value>(o.dst).emplace(construct<T.value>(EXT[o.ext][0], EXT[o.ext][1]));
                 vw<T.value>(o.dst).emplace(*fld<T.value>(o.dst));
             });
-            d = Model{1, o.type, EXT[o.ext][0], EXT[o.ext][1], std::vector<double>(EXT[o.ext][0] * EXT[o.ext][1] * 2, 0.0)};
+            d = Model{1, o.type, EXT[o.ext][0], EXT[o.ext][1], std::vector<double>(EXT[o.ext][0] * EXT[o.ext][1] * MAXC, 0.0)};
             break;
         case WRITE: {
             unsigned ncell = d.ex * d.ey;
@@ -211,7 +214,7 @@ struct Pool {
                 for (unsigned j = 0; j < comps<T.value>(); ++j) {
                     double val = (double)(next_id++);
                     cell<T.value>(v, x, y, d.ey)[j] = (std::decay_t<decltype(cell<T.value>(v, x, y, d.ey)[j])>)val;
-                    d.v[c * 2 + j] = val;
+                    d.v[c * MAXC + j] = val;
                 }
             });
             break;
@@ -226,6 +229,26 @@ struct Pool {
         case COPY_CONSTRUCT:
             dispatch(m[o.src].type, [&](auto T) {
                 fld<T.value>(o.dst).emplace(*fld<T.value>(o.src));
+                vw<T.value>(o.dst).emplace(*fld<T.value>(o.dst));
+            });
+            d = m[o.src];
+            break;
+        case ADOPT_TWICE:
+            // the source's storage is copied into a NAMED object, from which two fields are built one after the other
+            // (as lvalue in a parameter pack); the second is kept.  The named object is the caller's: building a field
+            // from it must leave it intact.
+            dispatch(m[o.src].type, [&](auto T) {
+                using F = typename type_of<T.value>::type;
+                if constexpr (T.value <= 1) {
+                    typename F::backend_t::owning_data_t kept(fld<T.value>(o.src)->backend());
+                    {
+                        F first(covfie::make_parameter_pack(kept));
+                        (void)first;
+                    }
+                    fld<T.value>(o.dst).emplace(covfie::make_parameter_pack(kept));
+                } else {
+                    fld<T.value>(o.dst).emplace(*fld<T.value>(o.src));
+                }
                 vw<T.value>(o.dst).emplace(*fld<T.value>(o.dst));
             });
             d = m[o.src];
@@ -322,7 +345,7 @@ struct Pool {
                 for (unsigned x = 0; x < d.ex && bad.empty(); ++x)
                     for (unsigned y = 0; y < d.ey && bad.empty(); ++y)
                         for (unsigned j = 0; j < comps<T.value>(); ++j) {
-                            double want = d.v[(x * d.ey + y) * 2 + j];
+                            double want = d.v[(x * d.ey + y) * MAXC + j];
                             double g1 = (double)cell<T.value>(fresh, x, y, d.ey)[j], g2 = (double)cell<T.value>(*vo, x, y, d.ey)[j];
                             vh::ev();
                             if (g1 != want || g2 != want) {
@@ -354,7 +377,7 @@ static bool nontrivial_hist(const std::vector<Op> & h)
     bool wrote = false;
     for (auto & o : h) {
         if (o.k == WRITE) wrote = true;
-        if (wrote && o.k >= COPY_CONSTRUCT && o.k <= DUMP_LOAD) return true;
+        if (wrote && o.k >= COPY_CONSTRUCT && o.k <= ADOPT_TWICE) return true;
     }
     return false;
 }
@@ -395,6 +418,7 @@ static std::vector<Op> alphabet(int ta, int tb)
             a.push_back({COPY_CONSTRUCT, s, r, -1, 0, 0});
             a.push_back({MOVE_CONSTRUCT, s, r, -1, 0, 0});
             a.push_back({DUMP_LOAD, s, r, -1, 0, 0});
+            a.push_back({ADOPT_TWICE, s, r, -1, 0, 0});
             for (int t : {ta, tb}) {
                 a.push_back({CONVERT_COPY, s, r, t, 0, 0});
                 a.push_back({CONVERT_MOVE, s, r, t, 0, 0});
